@@ -232,7 +232,9 @@ pub fn execute_range(prop: &dyn Prop, cfg: &RunCfg, known: &[Known]) -> Summary 
             }));
         }
         for h in handles {
-            let _ = h.join();
+            if h.join().is_err() {
+                harness_errors.lock().unwrap().push("a worker thread panicked outside catch_unwind (harness bug or panic in an unguarded library call)".to_string());
+            }
         }
         finished.store(true, Ordering::Relaxed);
     });
